@@ -415,6 +415,35 @@ func c11BaseScenarios() []lncScen {
 			c2 := s.DialPatience("c", 2, 10*time.Second)
 			s.Rec.Emit("note", "what", "half-paired redial", "met", b2i(c2 != nil && c2.Sec != nil))
 		}},
+		{"pairing-authdata-refused-once", lncrun.Options{AuthRejects: 1}, func(s *lncrun.Session, x *lncExpect) {
+			// the pairing handshake runs to its end - both static keys are
+			// exchanged, the server has completed - and then the client's
+			// auth-data callback refuses the payload once (a storage
+			// failure): the client's handshake call fails and the
+			// connection is closed, but the keys were exchanged, so both
+			// parties are on the key-derived rendezvous from now on and the
+			// next attempt meets there with the key-based handshake
+			s.Serve()
+			c := s.DialPatience("c", 10, 40*time.Second)
+			x.check("a handshake whose auth data the client refuses fails on the client",
+				c != nil && c.Sec == nil)
+			if c == nil || c.Sec != nil {
+				return
+			}
+			sc := s.Accepted()
+			c.AwaitDown(10 * time.Second)
+			if sc == nil || sc.Sec == nil {
+				// the last act did not reach the server in time: half
+				// paired, outside the property
+				s.Rec.Emit("note", "what", "auth refusal: server did not complete")
+				return
+			}
+			x.check("the peer of a closed connection goes down", sc.AwaitDown(30*time.Second))
+			c2, sc2 := x.connect(2)
+			if c2 != nil {
+				x.exchange(c2, sc2, 100, 3000)
+			}
+		}},
 	}
 }
 
